@@ -163,11 +163,11 @@ def _reexpress(v, I):
 META = {
     'technique': 'static analysis: symbolic value analysis (FORMULA/AGREE), kind inference (EXACTCOUNT), guard presence',
     'level': 'Decides from the source that samples-per-block, tbin, time-per-block, obs_length, total samples, SCANLEN, '
-             'PKTSTOP and the block count per length mode are the stated closed forms of the configuration, that the '
-             'stand-alone helpers compute the same real functions as the backend (exact division licensed by the '
-             'constructor assertion, whose presence is checked), and that the integer accounting quantities are not '
-             'obtained by truncating float quotients. The number of samples actually drawn per block (tiling by sub-blocks) '
-             'is not decided.',
+             'PKTSTOP and the block count per length mode are the stated closed forms of the configuration, that the stand-'
+             'alone helpers compute the same real functions as the backend (exact division licensed by the constructor '
+             'assertion, whose presence is checked), and that the integer accounting quantities are not obtained by truncating'
+             ' float quotients. Also decided: record() requests exactly num_blocks blocks (file/block loop trip counts) and '
+             'the sub-blocks of a block cover all its spectra. The floating-point value of time products is not decided.',
     'note': 'Real arithmetic; kinds (Int/Rat/Real) come from a name table of the configuration attributes; '
             'divisibility of block_size is taken from the constructor assert.',
 }
